@@ -65,7 +65,10 @@ type c08Kit struct {
 }
 
 var c08Funcs = []string{"Name", "String", "Bytes", "Number", "Float64", "Time", "Duration", "Pair", "List", "Map", "Struct",
-	"Constant.Equals", "Constant.Hash", "Constant.String", "Atom.Equals", "Atom.Hash", "Atom.String", "SortIndexInto", "keysorter.Less", "keysorter.Swap", "keysorter.Len", "FormatFloat64", "hashPair", "szudzikElegantPair"}
+	"Constant.Equals", "Constant.Hash", "Constant.String", "Atom.Equals", "Atom.Hash", "Atom.String", "SortIndexInto", "FormatFloat64"}
+
+// unexported helpers of today's implementation: listed as analysed when present, not required
+var c08Helpers = []string{"keysorter.Less", "keysorter.Swap", "keysorter.Len", "hashPair", "szudzikElegantPair"}
 
 func newC08Kit(c *core.Ctx, rule string, advers bool) *c08Kit {
 	k := &c08Kit{c: c, advers: advers, fn: map[string]*core.Func{}, ok: true}
@@ -75,6 +78,11 @@ func newC08Kit(c *core.Ctx, rule string, advers bool) *c08Kit {
 			k.ok = false
 		}
 		k.fn[n] = f
+	}
+	for _, n := range c08Helpers {
+		if f := c.Prog.Func("ast", n); f != nil {
+			c.Touch(f)
+		}
 	}
 	in := ordabs.New(c.Prog)
 	in.InstallErrorStubs()
@@ -135,30 +143,6 @@ func newC08Kit(c *core.Ctx, rule string, advers bool) *c08Kit {
 			}
 		}
 		return []ordabs.Value{int64(h.Sum64())}, nil
-	}
-	in.Stubs["sort.Stable"] = func(in *ordabs.Interp, _ ordabs.Value, a []ordabs.Value) ([]ordabs.Value, error) {
-		recv := a[0]
-		out, err := in.Call(k.fn["keysorter.Len"], recv, nil)
-		if err != nil {
-			return nil, err
-		}
-		n, _ := out[0].(int64)
-		// insertion sort: stable, and it drives Less and Swap exactly as sort.Stable's insertion phase does
-		for i := int64(1); i < n; i++ {
-			for j := i; j > 0; j-- {
-				lo, err := in.Call(k.fn["keysorter.Less"], recv, []ordabs.Value{j, j - 1})
-				if err != nil {
-					return nil, err
-				}
-				if b, _ := lo[0].(bool); !b {
-					break
-				}
-				if _, err := in.Call(k.fn["keysorter.Swap"], recv, []ordabs.Value{j, j - 1}); err != nil {
-					return nil, err
-				}
-			}
-		}
-		return nil, nil
 	}
 	k.in = in
 	return k
